@@ -652,3 +652,7 @@ mod tests {
         );
     }
 }
+
+#[cfg(kani)]
+#[path = "/verif/kani/rten-imageproc/drawing.rs"]
+mod verif_kani;
